@@ -273,11 +273,17 @@ class Repo:
             for c in m.classes.values():
                 for a0, v0 in list(c.class_attrs.items()):
                     target = v0.args[0] if isinstance(v0, ast.Call) and isinstance(v0.func, ast.Name) and v0.func.id == "staticmethod" and len(v0.args) == 1 else None
-                    if isinstance(target, ast.Name) and target.id in m.functions and a0 not in c.methods:
-                        alias = clone(m.functions[target.id])
+                    tfn = None
+                    if isinstance(target, ast.Name) and a0 not in c.methods:
+                        tfn = m.functions.get(target.id)
+                        if tfn is None and target.id in m.imports:
+                            r0 = self.resolve_name(m, target.id)          # a function of another (private) module of the package
+                            tfn = r0 if isinstance(r0, ast.FunctionDef) else None
+                    if tfn is not None:
+                        alias = clone(tfn)
                         alias.name = a0
                         alias.decorator_list = [ast.Name(id="staticmethod", ctx=ast.Load())]
-                        alias._cls, alias._module = c, m
+                        alias._cls, alias._module = c, getattr(tfn, "_module", m)
                         set_parents(alias)
                         alias._parent = None
                         c.methods[a0] = alias
